@@ -273,6 +273,7 @@ static const char *path_of_length(size_t want) {
     return padded_path;
 }
 
+static int ac_reuse = 0;   /* acre: the parser object has been used before (same path) */
 static void do_ac(int nw, char **w, size_t pathlen, int through_pipe) {
     const char *use_path = pathlen ? path_of_length(pathlen) : tmp_path;
     char fdpath[64]; int rfd = -1;
@@ -310,6 +311,24 @@ static void do_ac(int nw, char **w, size_t pathlen, int through_pipe) {
     qaconf_t *conf = qaconf();
     int added = conf->addoptions(conf, opts);
     if (defcb) conf->setdefhandler(conf, defcb == 2 ? cb_def_refusing : cb_def);
+    if (ac_reuse && !through_pipe) {
+        /* C20 for a parser object that is not fresh (seed C20-m10): the same object first reads a six-line
+         * file of comments and then the document itself, both under the same path, errors reset in between
+         * (documented reseterror); what is reported is the LAST parse - it must read like a first one */
+        static const char warm[] = "# warm\n\n# up\n\n\n# x\n";
+        FILE *fp = fopen(tmp_path, "w");
+        if (fp) { fwrite(warm, 1, sizeof(warm) - 1, fp); fclose(fp); }
+        alarm(WATCHDOG_S); plant_errno();
+        (void) conf->parse(conf, use_path, (uint8_t) flags);
+        conf->reseterror(conf);
+        fp = fopen(tmp_path, "w");
+        if (fp) { if (doc.n) fwrite(doc.p, 1, doc.n, fp); fclose(fp); }
+        (void) conf->parse(conf, use_path, (uint8_t) flags);
+        conf->reseterror(conf);
+        alarm(0);
+        fclose(cbout); free(cbtext); cbtext = NULL; cblen = 0;
+        cbout = open_memstream(&cbtext, &cblen); ncb = 0;
+    }
     alarm(WATCHDOG_S);
     plant_errno();
     int ret = conf->parse(conf, use_path, (uint8_t) flags);
@@ -389,6 +408,7 @@ int main(int argc, char **argv) {
         else if (!strcmp(w[0], "inifp") && nw >= 3) do_inif(nw, w, 1);
         else if (!strcmp(w[0], "ac") && nw >= 4) do_ac(nw, w, 0, 0);
         else if (!strcmp(w[0], "acpipe") && nw >= 4) do_ac(nw, w, 0, 1);
+        else if (!strcmp(w[0], "acre") && nw >= 4) { ac_reuse = 1; do_ac(nw, w, 0, 0); ac_reuse = 0; }
         else if (!strcmp(w[0], "acp") && nw >= 5) do_ac(nw - 1, w + 1, (size_t) strtoul(w[1], NULL, 10), 0);
         else if (!strcmp(w[0], "fread") && nw == 3) do_fread(w);
         else printf("bad-op");
